@@ -46,6 +46,7 @@ type TBroker struct {
 	seen    map[int16]int
 	lastLen map[int16]int // length of the last complete response frame per api key
 	seq     int
+	cutTs   int64 // timestamp field of the list-offsets request whose response was cut (0 if none / other api)
 	lens    map[int16][]int // lengths of all response frames per api key, in order of arrival
 }
 
@@ -95,6 +96,13 @@ func (b *TBroker) FrameLenNth(key int16, nth int) int {
 		return b.lens[key][nth-1]
 	}
 	return 0
+}
+
+// CutTimestamp is the timestamp asked by the list-offsets request whose response was cut (0: none was).
+func (b *TBroker) CutTimestamp() int64 {
+	b.mu.Lock()
+	defer b.mu.Unlock()
+	return b.cutTs
 }
 
 func (b *TBroker) LastFrameLen(key int16) int {
@@ -189,8 +197,13 @@ func (b *TBroker) response(ver int16, id int32, msg protocol.Message) []byte {
 		end := int64(len(b.log))
 		b.mu.Unlock()
 		off := end
-		if len(req.Topics) > 0 && len(req.Topics[0].Partitions) > 0 && req.Topics[0].Partitions[0].Timestamp == -2 {
-			off = 0
+		if len(req.Topics) > 0 && len(req.Topics[0].Partitions) > 0 {
+			switch ts := req.Topics[0].Partitions[0].Timestamp; {
+			case ts == -2:
+				off = 0
+			case ts >= 0:
+				off = 3 // "first offset at or after that time"
+			}
 		}
 		res = &listoffsets.Response{Topics: []listoffsets.ResponseTopic{{Topic: b.Topic, Partitions: []listoffsets.ResponsePartition{{Partition: 0, Timestamp: -1, Offset: off}}}}}
 	case *findcoordinator.Request:
@@ -282,6 +295,11 @@ func (b *TBroker) serve(c net.Conn, j *TConn) {
 		b.mu.Unlock()
 		c.SetWriteDeadline(time.Now().Add(10 * time.Second))
 		if cut && k < len(f) {
+			if lo, ok := msg.(*listoffsets.Request); ok && len(lo.Topics) > 0 && len(lo.Topics[0].Partitions) > 0 {
+				b.mu.Lock()
+				b.cutTs = lo.Topics[0].Partitions[0].Timestamp
+				b.mu.Unlock()
+			}
 			c.Write(f[:k])
 			b.mu.Lock()
 			j.CutAt = k
